@@ -173,7 +173,7 @@ def policiesSelecting (e : Engine) (peer : KPeer) (d : Dir) : List NetPol :=
 /-- `isPodToItself` -/
 def isPodToItself (a b : KPeer) : Bool :=
   match a, b with
-  | .pod p _, .pod q _ => p.name == q.name && p.ns == q.ns
+  | .pod p _, .pod q _ => p.name == q.name && p.ns == q.ns && p.fake == q.fake
   | _, _ => false
 
 /-- `getAllAllowedXgressConnsFromNetpols` (without the exposure shortcuts) -/
